@@ -409,7 +409,7 @@ func specGfpow(t T, p int) T {
 //@   pure
 //@   requires matOK(m)
 //@   panics i < 0 || i >= m.rows || j < 0 || j >= m.columns
-//@   ensures result == m.elements[i*m.columns+j]
+//@   ensures result == m.elements[mathint(i)*mathint(m.columns)+mathint(j)]
 //@   use mulMono(i, m.rows, m.columns)
 
 //@ func checkRowColumnCount
